@@ -33,7 +33,7 @@ func qosGuard(in ssa.Instruction, owner string, want int64) bool {
 }
 
 func c04(c *core.Ctx) {
-	c.Explain("C04 (inbound QoS 2 exactly once, matching acks): decided statically — R1 in publishHandler, once the unack store reported the packet id as already present, delivery, the OnMsgArrived hook and the retained update are unreachable while the PUBREC stays reachable, and for QoS 2 every path to those effects passes through the store's Set; R2 PUBACK/PUBREC/PUBCOMP are built from the very packet being handled, PUBACK only under QoS 1 and PUBREC only under QoS 2, and what is written is that packet; R3 PUBCOMP is written only after the id was removed successfully; R4 on session resume registerClient re-uses the stored unack store with Init(false), otherwise creates one with Init(true), and the stores' Init clears only under cleanStart; R5 when the PUBREC carries an error code the id is removed again.")
+	c.Explain("C04 (inbound QoS 2 exactly once, matching acks): decided statically — R1 in publishHandler, once the unack store reported the packet id as already present, delivery, the OnMsgArrived hook and the retained update are unreachable while the PUBREC stays reachable, and for QoS 2 every path to those effects passes through the store's Set; R2 PUBACK/PUBREC/PUBCOMP are built from the very packet being handled, PUBACK only under QoS 1 and PUBREC only under QoS 2, and what is written is that packet; R3 PUBCOMP is written only after the id was removed successfully; R4 on session resume registerClient re-uses the stored unack store with Init(false), otherwise creates one with Init(true), and the stores' Init clears only under cleanStart; R5 when the PUBREC carries an error code the id is removed again; R6 the redis unack store changes its in-memory id set only after the redis command succeeded (an id cached before a failed HSET would make the retransmission look like a duplicate that was never delivered).")
 	c.NotDecided("exactly-once over arbitrary duplicate / reuse histories (runtime contents of the id set), reuse timing")
 	p := c.P
 	ph := p.Func("server", "(*client).publishHandler")
@@ -253,6 +253,10 @@ func c04(c *core.Ctx) {
 		}
 		c.Check(ok, "C04.R4", pkg+"|Init|no-clear-without-cleanstart", pos, "Init(false) leaves the id set untouched", "Init(false) modifies the recorded packet ids: QoS 2 ids awaiting PUBREL are lost on session resume")
 	}
+
+	// ---- R6 the redis unack store records an id in memory only after redis accepted it
+	persistBeforeApply(c, "C04.R6", "persistence/unack/redis", "(*Store).Set")
+	persistBeforeApply(c, "C04.R6", "persistence/unack/redis", "(*Store).Remove")
 
 	// ---- R5 error PUBREC removes the id again
 	rm2 := invokeCalls(ph, unackStoreIface, "Remove")
